@@ -28,6 +28,9 @@ def holdsAll (c : Case) (nch : Nat) (t : List Ev) : List (String × Bool) :=
       | .race => [("C06", holds_C06 t)]
       | .raceOkArr | .raceOkVec | .raceOkTup => [("C07", holds_C07 c.n t)]
       | .waitF | .waitS => [("C19", holds_C19 t)]
+      | .merge => [("C08", holds_C08 c.n t), ("C17", holds_C17 c.n t)]
+      | .zip => [("C09", holds_C09 c.n t)]
+      | .chain => [("C10", holds_C10 c.n t)]
       | _ => [])
 
 def holdsText (c : Case) (nch : Nat) (t : List Ev) : String :=
